@@ -20,11 +20,11 @@ CHECKS["C16"] = ("exploration", "differential monitor: consensus script library 
   "every script of the seeded stream (three templates with boundary frozen periods and legal/illegal binding targets, eight mutation kinds, random bytes ≤300 B) is read by the wallet and by the consensus library and all accessors are compared; panics are caught per call",
   "mass-core is the reference and is trusted; staking maturity for frozen period 2^64-1 unspecified", "§5 C16")
 
-CHECKS["C18"] = ("fault_enumeration", "storage-fault enumeration through the database interposer: every storage call index of a recorded scenario - wallet database (begin, get, put, delete, iterator, commit) and the wallet's reads of the node database (blocks, transactions, script-hash index) in one numbering - fails once in its own run; the failed API call is repeated, background tasks retry on their own; final observation vs a fault-free twin run and vs the reference ledger",
+CHECKS["C18"] = ("fault_enumeration", "storage-fault enumeration through the database interposer: every storage call index of a recorded scenario - wallet database (begin, get, put, delete, iterator, commit) and the wallet's reads of the node database (blocks, transactions, script-hash index) in one numbering - fails once in its own run; the failed API call is repeated once the background worker is parked with an empty queue (whatever the failed call queued has run), background tasks retry on their own; final observation vs a fault-free twin run and vs the reference ledger",
   "a scenario (import x2, new addresses, 9 blocks incl. 2 reorgs, create, remove with blocks arriving, flush blocks) is recorded once; per step group every call index (quick: all indexes of small steps, a seeded sample with both ends of large ones; thorough: all) is failed once and as a burst of consecutive failures; an attempt of the operation during which storage works must succeed, the NewAddress sequence, wallet list, every API observation of the surviving wallet and the ledger must equal the twin's; no follower goroutine may die",
   "one fault burst per run (1 failing call, or 2/3/6 consecutive failing calls); bucket lookups have no error return and are not faulted; rolled-back transactions are always resolved on the new branch (a block the wallet skipped and the chain abandoned is not a lost block)", "§5 C18")
 
-CHECKS["C20"] = ("exploration", "schedule control at 11 yield points of follower and worker (build tag verif): every (point, occurrence) of four scenarios is used once as the place where a goroutine is parked while Stop is issued (released after quit is closed / 3 ms later) or while all blocks are queued (progress variant); goroutine-dump deadlock classifier, in-process database re-open, restart convergence; random stops with delays and GOMAXPROCS 1/2/4/16, a sixth under the Go race detector",
+CHECKS["C20"] = ("exploration", "schedule control at 11 yield points of follower and worker (build tag verif): every (point, occurrence) of four scenarios is used once as the place where a goroutine is parked while Stop is issued (released after quit is closed / 3 ms later) or while all blocks are queued (progress variant); goroutine-dump deadlock classifier, in-process database re-open, restart convergence; random stops with delays and GOMAXPROCS 1/2/4/16, a sixth under the Go race detector; runs in which the LevelDB store under the running wallet goes read-only (real failing commits), then Stop and restart",
   "Stop must return for every enumerated placement and random stop; a watchdog expiry counts only with two identical goroutine dumps in which every wallet goroutine is blocked in a channel/lock/wait-group operation; the database directory must be open-able again; after restart (or without a stop) every tip is applied, the import turns ready, the removed wallet disappears",
   "goroutines are parked only at hook points (outside database transactions); API server and chain notifications are stopped before WalletManager.Stop as in loader.go; bounded progress (40-60 s) stands in for 'eventually'", "§5 C20")
 
@@ -53,7 +53,7 @@ CHECKS["C10"] = ("exploration", "reference-ledger monitor at every height (depos
   "trusts the ledger's transcription of calcSequenceLock/scriptval flag rule and mass-core's script engine; consensus constants lowered per case", "§5 C10")
 
 CHECKS["C12"] = ("exploration", "address-book model monitor (issue order vs independent derivation from the mnemonic, gap rule evaluated on the reference ledger, listing/used flags after every step) + an actual mnemonic restore into a second wallet instance",
-  "every NewAddress outcome is predicted (next index address or gap-limit error), every issued address must stay listed with the right used flag across payments, reorgs that remove first payments and restarts, and a restore with index hints must rediscover every funded index",
+  "every NewAddress outcome is predicted (next index address or gap-limit error), every issued address must stay listed with the right used flag across payments (15 % in the other form of the key), reorgs that remove first payments and restarts, the restored instance goes on issuing and being paid, and a restore with index hints must rediscover every funded index",
   "trusts harness BIP-39/BIP-32 references for the expected address at index i; restore completeness demanded only while the final chain satisfies the gap invariant", "§5 C12")
 
 CHECKS["C02"] = ("exploration", "conservation / ownership / eligibility / fee-bounds monitor on every transaction returned by the create calls, against the reference ledger and a reservation set kept by the monitor, plus must-succeed / must-fail funding regions",
@@ -73,7 +73,7 @@ CHECKS["C05"] = ("exploration", "needle-scan monitor over the raw wallet databas
   "memory zeroing is not observable and not checked; secrets are derived with harness references and the repo's hdkeychain", "§5 C05")
 
 CHECKS["C06"] = ("fault_enumeration", "crash-point enumeration through the storage interposer (freeze-and-abandon at every wallet-database commit boundary, both sides, plus double crashes) with a never-stopped twin and the reference ledger as oracles",
-  "for each deterministic scenario variant (live following with reorgs; orderly stop + node moves on + start-up catch-up; background removal while blocks arrive; two-batch import on a > 1000-block chain, boundaries of the import phase) every commit boundary k of the crash-free run is used as crash point before and after the commit; the restarted wallet must come up, finish background work and end in exactly the twin's observation record and the ledger",
+  "for each deterministic scenario variant (live following with reorgs; orderly stop + node moves on + start-up catch-up; background removal while blocks arrive; a block below the wallet's tip announced again and a start against a node that fell back and re-attaches the same blocks; two-batch import on a > 1000-block chain, boundaries of the import phase) every commit boundary k of the crash-free run is used as crash point before and after the commit; the restarted wallet must come up, finish background work and end in exactly the twin's observation record and the ledger",
   "crash model: the files hold exactly the first k commits (LevelDB batch write is the only write path); volatile state is lost by abandoning the instance; a wallet that stays importing/removing while every wallet goroutine is idle (goroutine-dump classifier) is a violation, a mere time-out inconclusive", "§5 C06")
 
 CHECKS["C07"] = ("exploration", "reference-ledger monitor on a wallet restored from its mnemonic, with schedule control through a node-database interposer (rescan worker held inside the calls of a batch while chain changes are committed) and status / bounded-progress monitors",
